@@ -107,7 +107,7 @@ Qed.
 Lemma cgood_close_cb s thr c : cgood s (close_cb s thr c).
 Proof.
   unfold close_cb. destruct (getc s c) as [k|] eqn:Hg; [|exact I]. destruct (k_ccb k).
-  - destruct (negb (s_srv s)); [exact I|]. destruct (thr =? 0); [apply cgood_remove_in_loop|apply cgood_ret, same_ud_enq].
+  - destruct (negb (s_srv s) && (thr =? 0)); [exact I|]. destruct (thr =? 0); [apply cgood_remove_in_loop|apply cgood_ret, same_ud_enq].
   - destruct (negb (s_cli s)); [exact I|]. destruct (negb (thr =? 0)); [exact I|]. destruct (s_cliconn s) as [c'|]; [|exact I].
     destruct (negb (c' =? c)); [exact I|]. apply cgood_ret.
     apply (same_ud_trans _ (put s c (set_own k CbClient false (k_urefs k) (k_delayed k)))).
